@@ -692,6 +692,8 @@ func (ex *Exec) callFunction(fn *ssa.Function, args []Value, bindings []Value) V
 	}
 	if m, ok := ex.eng.models[key]; ok {
 		ex.noteStub("model:" + key)
+		ex.inModel++
+		defer func() { ex.inModel-- }()
 		return ex.callFunction(m, args, nil)
 	}
 	if fn.Synthetic == "package initializer" {
